@@ -24,7 +24,16 @@ def main():
     chk = core.Check(a.prop, a.tier, seed)
     try:
         mod = importlib.import_module(f"contracts.{a.prop}")
+        chk.level_category = getattr(mod, "META", {}).get("category", "proof")
         mod.run(chk)
+    except core.Undecided as e:
+        # raised outside an obligation thunk (e.g. while exploring for a cover): the contract could not be anchored in
+        # the current source - undecided, never a violation
+        print("UNDECIDED: " + str(e)[:600])
+        sys.stdout.flush()
+        rc = chk.finish()
+        sys.stdout.flush()
+        os._exit(rc if rc == 1 else 2)
     except Exception:
         traceback.print_exc()
         print("CHECKER-ERROR: check driver crashed")
